@@ -101,7 +101,29 @@ pub fn dispatch(name: &str, args: &[&str]) -> Option<String> {
                     std::fs::write(path, unhex(c)).unwrap();
                 }
             }
-            let text = unhex_str(args[0]).replace("@FIX@", &fix);
+            let mut text = unhex_str(args[0]).replace("@FIX@", &fix);
+            if text.contains("@UP@") {
+                // a minimal origin for proxy routes: answers every request with 200 "UPSTREAM" and closes
+                let l = std::net::TcpListener::bind("127.0.0.1:0").unwrap();
+                text = text.replace("@UP@", &l.local_addr().unwrap().to_string());
+                std::thread::spawn(move || {
+                    for s in l.incoming().flatten() {
+                        std::thread::spawn(move || {
+                            let mut s = s;
+                            let _ = s.set_read_timeout(Some(Duration::from_millis(2000)));
+                            let mut buf = Vec::new();
+                            let mut tmp = [0u8; 2048];
+                            while !buf.windows(4).any(|w| w == b"\r\n\r\n") {
+                                match s.read(&mut tmp) {
+                                    Ok(0) | Err(_) => break,
+                                    Ok(n) => buf.extend_from_slice(&tmp[..n]),
+                                }
+                            }
+                            let _ = s.write_all(b"HTTP/1.1 200 OK\r\nContent-Length: 8\r\n\r\nUPSTREAM");
+                        });
+                    }
+                });
+            }
             let tree = match parse_conf(&text, "e2e.conf") {
                 Ok(t) => t,
                 Err(_) => return Some("conf-syntax-error".into()),
